@@ -44,7 +44,7 @@ META = {
     'assumptions': ['transport.write preserves order'],
     'decided': ['D1 conformance of the bus path', 'D2 unique names; a '
                 'registered connection is unregistered on loss',
-                'D3 true sender; the owner table routing reads is the one RequestName reports (C13.D2 rows, C13.D4 queue integrity as premises)', 'D4 unicast is unicast',
+                'D3 true sender; the owner table routing reads is the one RequestName reports (C13.D2 rows, C13.D4 queue integrity as premises)', 'D4 unicast is unicast; what is forwarded is what _marshal(False) writes (C03.D4 re-reported under D3)',
                 'D5 match-rule lifecycle (incl. RemoveMatch accounting when one '
                 'text was added several times)', 'D6 stub/skeleton agreement',
                 'D7 no deferral on the forwarding path'],
@@ -73,6 +73,7 @@ def run(ctx):
                             'connections of the bus share one table')
     registered_implies_unregistered(ctx)
     owner_table_premise(ctx)
+    forwarded_bytes(ctx)
     # "reaches exactly the connections that hold a rule matching it": a rule
     # the bus refused (AddMatch answered with an error) must not be left in
     # the router
@@ -85,6 +86,41 @@ def run(ctx):
     ctx.floor('C14.D5', 3)
     ctx.floor('C14.D6', 8)
     ctx.floor('C14.D7', 3)
+
+
+def forwarded_bytes(ctx):
+    """What the bus delivers is what `_marshal(False)` produces from the
+    parsed message after the sender was overwritten: "unchanged except the
+    sender field" therefore rests on the writer clauses of C03.D4 (the body is
+    self.body encoded under self.signature, header and body in one byte
+    order, header + padding + body) for every message class - re-reported
+    here."""
+    from . import c03 as _c03
+
+    class _Sub:
+        prog = ctx.prog
+        tier = ctx.tier
+        extra = {}
+
+        def ob(self, rule, where, slot, ok, msg, detail=None,
+               nontrivial=True, loc=None):
+            if rule == 'C03.D4':
+                ctx.ob('C14.D3', where, 'forwarded:' + slot, ok,
+                       '[the bus forwards what _marshal(False) writes] '
+                       + msg, detail, nontrivial, loc)
+            return ok
+
+        def floor(self, *a):
+            pass
+
+        def advisory(self, *a):
+            pass
+    sub = _Sub()
+    mfi = ctx.prog.func('message.DBusMessage._marshal')
+    for c in _c03.message_classes(ctx.prog):
+        paths = Interp(ctx.prog, exc_edges=False, self_cls=c).run(mfi)
+        _c03.marshal_rules(sub, c, mfi, paths, ('param', 'self'),
+                           skip_typing=True)
 
 
 def owner_table_premise(ctx):
